@@ -1143,7 +1143,9 @@ func (mgr *Manager) UpdateTag(name string, operation UpdateTagOperation) error {
 	info := updateTagOperationInfo{convertersUpdated: false}
 	operation(&info)
 	maxUsedStreamID := uint64(0)
+	markUpdate := false
 	if len(info.markTagAddStreams) != 0 || len(info.markTagDelStreams) != 0 {
+		markUpdate = true
 		if !(strings.HasPrefix(name, "mark/") || strings.HasPrefix(name, "generated/")) {
 			return fmt.Errorf("tag %q is not of type 'mark' or 'generated'", name)
 		}
@@ -1267,7 +1269,7 @@ func (mgr *Manager) UpdateTag(name string, operation UpdateTagOperation) error {
 				}
 				mgr.startConverterJobIfNeeded()
 			}
-			if maxUsedStreamID != 0 {
+			if markUpdate {
 				if maxUsedStreamID >= mgr.nextStreamID {
 					return fmt.Errorf("unknown stream id %d", maxUsedStreamID)
 				}
